@@ -17,7 +17,8 @@
 
     New definitions and proofs only; nothing existing is changed. *)
 From LymphModel Require Import Base States Linalg Graph Transition Observation Dist Unilateral Models Params
-  ParamsStatements ParamsLemmas ParamsProofs ParamsBilateral ParamsMidline Sync SyncProofs.
+  ParamsStatements ParamsLemmas ParamsProofs ParamsBilateral ParamsMidline Safe ParamsMidlineSafe SafeProofs SafeMidline
+  Sync SyncProofs SyncMidlineRecovery.
 Local Open Scope nat_scope.
 Local Open Scope string_scope.
 Local Open Scope list_scope.
@@ -342,9 +343,9 @@ Proof.
     exists (lnl_put qs ids), qs, qs, (skipn (length KL) a). split; [exact Hrel|].
     split; [intros; apply lnl_put_skel|]. split; [intros; apply lnl_put_config|]. split; [intros; apply lnl_put_T|].
     split; [|split; [|split; [reflexivity|split; [exact Hmix|split; [exact R | apply skipn_length]]]]].
-    + intros l u Hl Eu. assert (Hin : In l ids) by (unfold ids, ipsi_ids in *; cbn in *; tauto).
+    + intros l u Hl Eu. assert (Hin : In l ids) by (unfold ids; clear - Hl; unfold ipsi_ids in Hl; cbn in *; tauto).
       rewrite lnl_put_L_in; [rewrite (HkL l u Eu); reflexivity | exact Hin | rewrite (HlenL l u Eu); exact Hlen].
-    + intros l u Hl Eu. assert (Hin : In l ids) by (unfold ids, contra_ids in *; cbn in *; tauto).
+    + intros l u Hl Eu. assert (Hin : In l ids) by (unfold ids; clear - Hl; unfold contra_ids in Hl; cbn in *; tauto).
       rewrite lnl_put_L_in; [rewrite (HkL l u Eu); reflexivity | exact Hin | rewrite (HlenL l u Eu); exact Hlen].
   - destruct (andthen_ok _ _ Hret) as (a1 & Ha1 & Heq). rewrite Heq in *.
     set (idsI := [LCentralIpsi; LExtIpsi; LNoextIpsi]) in *. set (idsC := [LCentralContra; LExtContra; LNoextContra]) in *.
@@ -359,7 +360,7 @@ Proof.
     assert (Hc1 : forall l, In l idsC -> ml_leaf m1 l = ml_leaf m l).
     { intros l Hl. rewrite (mr_leaf _ _ _ HrelI l). destruct (ml_leaf m l) as [u|]; [|reflexivity]. cbn [option_map].
       unfold lnl_put.
-      assert (Hn : inb l idsI = false) by (apply inb_false; unfold idsI, idsC in *; cbn in *; intuition congruence).
+      assert (Hn : inb l idsI = false) by (apply inb_false; unfold idsI; unfold idsC in Hl; clear - Hl; cbn in *; intuition congruence).
       rewrite Hn. reflexivity. }
     assert (HallC : forall l u, In l idsC -> ml_leaf m1 l = Some u -> u_names_ok u = true /\ length (u_L u) = length KL).
     { intros l u Hl E. split; [apply (wf_leaf_names_ok m1 l u Hwf1 E)|]. rewrite Hc1 in E by exact Hl. apply (HlenL l u E). }
@@ -372,12 +373,12 @@ Proof.
     split; [intros; eapply same_config_trans; apply lnl_put_config|].
     split; [intros; rewrite !lnl_put_T; reflexivity|].
     split; [|split; [|split; [intros C; discriminate C|split; [rewrite HmixC; exact HmixI|split; [exact RC | rewrite !skipn_length; lia]]]]].
-    + intros l u Hl Eu. assert (Hin : In l idsI) by (unfold idsI, ipsi_ids in *; cbn in *; tauto).
-      assert (Hout : ~ In l idsC) by (unfold idsC, ipsi_ids in *; cbn in *; intuition congruence).
+    + intros l u Hl Eu. assert (Hin : In l idsI) by (unfold idsI; clear - Hl; unfold ipsi_ids in Hl; cbn in *; tauto).
+      assert (Hout : ~ In l idsC) by (unfold idsC; clear - Hl; unfold ipsi_ids in Hl; cbn in *; intuition congruence).
       rewrite lnl_put_L_out by exact Hout.
       rewrite lnl_put_L_in; [rewrite (HkL l u Eu); reflexivity | exact Hin | rewrite (HlenL l u Eu); exact HlenI].
-    + intros l u Hl Eu. assert (Hin : In l idsC) by (unfold idsC, contra_ids in *; cbn in *; tauto).
-      assert (Hout : ~ In l idsI) by (unfold idsI, contra_ids in *; cbn in *; intuition congruence).
+    + intros l u Hl Eu. assert (Hin : In l idsC) by (unfold idsC; clear - Hl; unfold contra_ids in Hl; cbn in *; tauto).
+      assert (Hout : ~ In l idsI) by (unfold idsI; clear - Hl; unfold contra_ids in Hl; cbn in *; intuition congruence).
       rewrite lnl_put_L_in; [|exact Hin | rewrite lnl_put_L_out by exact Hout; rewrite (HlenL l u Eu); exact HlenC].
       rewrite lnl_put_L_out by exact Hout. rewrite (HkL l u Eu). reflexivity.
 Qed.
@@ -407,9 +408,11 @@ Lemma b_dist_pos b a u0 ds0 : b_names_ok b = true -> config_sim (b_ipsi b) u0 ->
   length (u_dist_items u0) <= length a ->
   dists_put (u_maxt u0) (u_dists u0) (firstn (length (u_dist_items u0)) a) = Some ds0 ->
   snd (b_set_distribution_params b a []) <> None ->
-  fst (b_set_distribution_params b a []) = bmap (fun u => u_with_dists u ds0) b.
+  fst (b_set_distribution_params b a []) = bmap (fun u => u_with_dists u ds0) b /\
+  b_names_ok (bmap (fun u => u_with_dists u ds0) b) = true.
 Proof.
   intros Hok Hi Hc Hla Hd Hret. pose proof (b_dist_step b a [] Hok) as Hs.
+  destruct (b_dist_facts b a [] Hok Hret) as [Hn _]. cbv zeta in Hn. revert Hn.
   pose proof (config_sim_dist_len _ _ Hi) as Li. pose proof (config_sim_dist_len _ _ Hc) as Lc.
   rewrite (plan_pos (side_lk "ipsi" [])) in Hs by (try apply side_lk_nil; lia).
   rewrite (plan_pos (side_lk "contra" [])) in Hs by (try apply side_lk_nil; lia).
@@ -418,7 +421,7 @@ Proof.
   destruct (dists_put (u_maxt u0) (u_dists (b_ipsi b)) _) as [dsi|] eqn:Ei; [|contradiction].
   destruct (dists_put (u_maxt u0) (u_dists (b_contra b)) _) as [dsc|] eqn:Ec; [|contradiction].
   rewrite (dists_put_sim _ _ _ _ _ _ Ki Si Ei Hd), (dists_put_sim _ _ _ _ _ _ Kc Sc Ec Hd) in Hs.
-  rewrite Hs. reflexivity.
+  rewrite Hs. cbn [fst]. intros Hn. split; [reflexivity | exact Hn].
 Qed.
 
 Ltac norm_ml :=
@@ -427,7 +430,8 @@ Ltac norm_ml :=
 
 Lemma m_dist_pos m a : m_wf m = true -> m_config_sim m -> length (u_dist_items (ext_i m)) <= length a ->
   snd (m_set_distribution_params m a []) <> None ->
-  exists ds0, fst (m_set_distribution_params m a []) = m_map (fun u => u_with_dists u ds0) m.
+  exists ds0, fst (m_set_distribution_params m a []) = m_map (fun u => u_with_dists u ds0) m /\
+              m_wf (m_map (fun u => u_with_dists u ds0) m) = true.
 Proof.
   intros Hwf Hsim Hla.
   destruct (wf_parts m Hwf) as (Hoke & Hokn & Hokc).
@@ -443,38 +447,241 @@ Proof.
   destruct (b_set_distribution_params (ml_ext m) a []) as [e' o1] eqn:E1. destruct o1 as [r1|]; [|intros C; contradiction].
   destruct (b_dist_pos_ex (ml_ext m) a Hoke Hla) as (ds0 & Ed0); [rewrite E1; discriminate|]. fold (ext_i m) in Ed0.
   pose proof (b_dist_pos (ml_ext m) a (ext_i m) ds0 Hoke (HsL LExtIpsi _ eq_refl) (HsL LExtContra _ eq_refl) Hla Ed0) as X1.
-  rewrite E1 in X1. cbn [fst snd] in X1. specialize (X1 ltac:(discriminate)). subst e'.
+  rewrite E1 in X1. cbn [fst snd] in X1. destruct (X1 ltac:(discriminate)) as [-> N1]. clear X1.
   change (ml_noext (ml_with_ext m (bmap (fun u => u_with_dists u ds0) (ml_ext m)))) with (ml_noext m).
   destruct (b_set_distribution_params (ml_noext m) a []) as [n' o2] eqn:E2. destruct o2 as [r2|]; [|intros C; contradiction].
   pose proof (b_dist_pos (ml_noext m) a (ext_i m) ds0 Hokn (HsL LNoextIpsi _ eq_refl) (HsL LNoextContra _ eq_refl) Hla Ed0) as X2.
-  rewrite E2 in X2. cbn [fst snd] in X2. specialize (X2 ltac:(discriminate)). subst n'.
+  rewrite E2 in X2. cbn [fst snd] in X2. destruct (X2 ltac:(discriminate)) as [-> N2]. clear X2.
   match goal with |- context [ml_central (ml_with_noext ?M ?B)] => change (ml_central (ml_with_noext M B)) with (ml_central m) end.
-  exists ds0. revert H. unfold m_map.
+  intros H. exists ds0. revert H. unfold m_wf, m_map.
   destruct (ml_central m) as [c|] eqn:Ec.
   - destruct (b_set_distribution_params c a []) as [c' o3] eqn:E3. destruct o3 as [r3|]; [|intros C; contradiction].
-    destruct (Hokc c eq_refl) as [Hcok _].
+    destruct (Hokc c eq_refl) as [Hcok HcT].
     pose proof (b_dist_pos c a (ext_i m) ds0 Hcok (HsL LCentralIpsi _ ltac:(cbn; rewrite Ec; reflexivity))
                   (HsL LCentralContra _ ltac:(cbn; rewrite Ec; reflexivity)) Hla Ed0) as X3.
-    rewrite E3 in X3. cbn [fst snd] in X3. specialize (X3 ltac:(discriminate)). subst c'.
+    rewrite E3 in X3. cbn [fst snd] in X3. destruct (X3 ltac:(discriminate)) as [-> N3]. clear X3.
     match goal with |- context [ml_unknown (ml_with_central ?M ?B)] => change (ml_unknown (ml_with_central M B)) with (ml_unknown m) end.
     destruct (ml_unknown m) as [k|] eqn:Ek.
     + destruct (b_set_distribution_params k a []) as [k' o4] eqn:E4. cbn [fst snd]. intros Hret.
       destruct (HsK k eq_refl) as [Ki Kc].
       pose proof (b_dist_pos k a (ext_i m) ds0 (Hokk k eq_refl) Ki Kc Hla Ed0) as X4.
-      rewrite E4 in X4. cbn [fst snd] in X4. specialize (X4 Hret). subst k'.
-      norm_ml. reflexivity.
+      rewrite E4 in X4. cbn [fst snd] in X4. destruct (X4 Hret) as [-> N4]. clear X4.
+      norm_ml. cbn [opt_ok]. change (b_symT (bmap (fun u => u_with_dists u ds0) c)) with (b_symT c).
+      rewrite N1, N2, N3, N4, HcT. split; reflexivity.
     + intros _.
-      norm_ml.
-      rewrite Ek. reflexivity.
+      norm_ml. cbn [opt_ok]. change (b_symT (bmap (fun u => u_with_dists u ds0) c)) with (b_symT c).
+      rewrite Ek, N1, N2, N3, HcT. split; reflexivity.
   - match goal with |- context [ml_unknown (ml_with_noext ?M ?B)] => change (ml_unknown (ml_with_noext M B)) with (ml_unknown m) end.
     destruct (ml_unknown m) as [k|] eqn:Ek.
     + destruct (b_set_distribution_params k a []) as [k' o4] eqn:E4. cbn [fst snd]. intros Hret.
       destruct (HsK k eq_refl) as [Ki Kc].
       pose proof (b_dist_pos k a (ext_i m) ds0 (Hokk k eq_refl) Ki Kc Hla Ed0) as X4.
-      rewrite E4 in X4. cbn [fst snd] in X4. specialize (X4 Hret). subst k'.
-      norm_ml.
-      rewrite Ec. reflexivity.
+      rewrite E4 in X4. cbn [fst snd] in X4. destruct (X4 Hret) as [-> N4]. clear X4.
+      norm_ml. cbn [opt_ok]. rewrite Ec, N1, N2, N4. split; reflexivity.
     + intros _.
-      norm_ml.
-      rewrite Ec, Ek. reflexivity.
+      norm_ml. cbn [opt_ok]. rewrite Ec, Ek, N1, N2. split; reflexivity.
 Qed.
+
+(** * Midline.set_spread_params, positional: the sharing invariant holds afterwards *)
+Lemma m_param_count_eq m : m_param_count m =
+  length (u_T (ext_i m)) + (match ml_mixing m with Some _ => length (u_T (ext_i m)) + 1 | None => length (u_T (ext_i m)) + length (u_T (ext_i m)) end)
+  + (if ml_symL m then length (u_L (ext_i m)) else length (u_L (ext_i m)) + length (u_L (ext_i m)))
+  + length (u_dist_items (ext_i m)) + 1.
+Proof. reflexivity. Qed.
+
+Lemma m_spread_pos m a : m_wf m = true -> m_shapes_agree m -> m_config_sim m ->
+  m_param_count m - 1 <= length a ->
+  snd (m_set_spread_params m a []) <> None ->
+  exists r, snd (m_set_spread_params m a []) = Some r /\
+    m_wf (fst (m_set_spread_params m a [])) = true /\ m_shared (fst (m_set_spread_params m a [])) /\
+    m_config_sim (fst (m_set_spread_params m a [])) /\
+    length (u_dist_items (ext_i (fst (m_set_spread_params m a [])))) <= length r.
+Proof.
+  intros Hwf Hsh Hsim Hla Hret. rewrite m_param_count_eq in Hla.
+  set (KT := map fst (u_T (ext_i m))) in *. set (KL := map fst (u_L (ext_i m))) in *.
+  pose proof (shapes_agree_keys m Hsh) as Hk. fold KT KL in Hk.
+  assert (LKT : length (u_T (ext_i m)) = length KT) by (unfold KT; rewrite map_length; reflexivity).
+  assert (LKL : length (u_L (ext_i m)) = length KL) by (unfold KL; rewrite map_length; reflexivity).
+  rewrite LKT, LKL in Hla.
+  unfold m_set_spread_params in *. destruct (andthen_ok _ _ Hret) as (a1 & Ha1 & Heq). rewrite Heq in *.
+  assert (HlaT : length KT <= length a) by (destruct (ml_mixing m), (ml_symL m); lia).
+  destruct (m_tumor_pos m a KT KL Hwf Hk HlaT) as (trT & qI & r & HrelT & skT & cfT & LT & HlqI & [HTP1 HTP2] & Hr & Hlr);
+    [rewrite Ha1; discriminate|].
+  rewrite Hr in Ha1. injection Ha1 as <-.
+  set (m1 := fst (m_set_tumor_spread_params m a [])) in *.
+  assert (Hwf1 : m_wf m1 = true) by (apply (mid_rel_wf _ m m1 HrelT); [intros; apply skT | exact Hwf]).
+  pose proof (mid_rel_keys _ _ _ _ _ HrelT skT Hk) as Hk1.
+  pose proof (mid_rel_config_sim _ _ _ HrelT cfT Hsim) as Hsim1.
+  pose proof (mr_symL _ _ _ HrelT) as HsymL1.
+  assert (HlaL : (if ml_symL m1 then length KL else length KL + length KL) <= length r).
+  { rewrite HsymL1, Hlr. destruct (ml_mixing m), (ml_symL m); lia. }
+  destruct (m_lnl_pos m1 r KT KL Hwf1 Hk1 HlaL Hret) as (trL & qLI & qLC & r2 & HrelL & skL & cfL & TL & HLI & HLC & Hsym & HmixL & Hr2 & Hlr2).
+  set (m2 := fst (m_set_lnl_spread_params m1 r [])) in *.
+  exists r2. split; [exact Hr2|]. split; [|split; [|split]].
+  - apply (mid_rel_wf _ m1 m2 HrelL); [intros; apply skL | exact Hwf1].
+  - apply (mid_rel_shared _ m1 m2 HrelL (combine KT qI) (combine KL qLI) (combine KL qLC)).
+    + intros l u Hl Eu. rewrite TL. apply (HTP1 l u Hl Eu).
+    + intros mix Hm. rewrite !TL. apply HTP2. rewrite <- HmixL. exact Hm.
+    + exact HLI.
+    + exact HLC.
+    + intros E. rewrite (Hsym E). reflexivity.
+  - apply (mid_rel_config_sim _ _ _ HrelL cfL Hsim1).
+  - assert (Ed : u_dists (ext_i m2) = u_dists (ext_i m)).
+    { rewrite (mr_ext_i _ _ _ HrelL), (mr_ext_i _ _ _ HrelT).
+      destruct (cfL LExtIpsi (trT LExtIpsi (ext_i m))) as (_ & -> & _). destruct (cfT LExtIpsi (ext_i m)) as (_ & -> & _). reflexivity. }
+    unfold u_dist_items in *. rewrite Ed, Hlr2, Hlr, HsymL1. destruct (ml_mixing m), (ml_symL m); lia.
+Qed.
+
+(** * Midline.set_params, positional *)
+Lemma m_map_shared g m : (forall u, u_T (g u) = u_T u) -> (forall u, u_L (g u) = u_L u) -> m_shared m -> m_shared (m_map g m).
+Proof.
+  intros gT gL (H1 & H2 & H3 & H4 & H5 & H6).
+  assert (Ei : ext_i (m_map g m) = g (ext_i m)) by reflexivity.
+  assert (Ec : ext_c (m_map g m) = g (ext_c m)) by reflexivity.
+  assert (En : noext_c (m_map g m) = g (noext_c m)) by reflexivity.
+  unfold m_shared. rewrite Ei, Ec, En, ipsi_leaves_map, contra_leaves_map, !gT, !gL. repeat split.
+  - intros u Hu. apply in_map_iff in Hu. destruct Hu as (u0 & <- & Hu0). rewrite gT. apply H1, Hu0.
+  - intros c Hcen. unfold m_map in Hcen. cbn [ml_with_models ml_central] in Hcen.
+    destruct (ml_central m) as [c0|] eqn:E0; [|discriminate]. injection Hcen as <-.
+    unfold bmap, b_with. cbn [b_contra]. rewrite gT. apply (H2 c0). reflexivity.
+  - exact H3.
+  - intros u Hu. apply in_map_iff in Hu. destruct Hu as (u0 & <- & Hu0). rewrite gL. apply H4, Hu0.
+  - intros u Hu. apply in_map_iff in Hu. destruct Hu as (u0 & <- & Hu0). rewrite gL. apply H5, Hu0.
+  - exact H6.
+Qed.
+
+Lemma popat_length {A} (l : list A) idx b x af : popat l idx = (b, x, af) -> length l <= length (b ++ af) + 1.
+Proof.
+  unfold popat. set (n := Z.of_nat (length l)). set (i := if (idx <? 0)%Z then (idx + n)%Z else idx).
+  destruct (i <? 0)%Z eqn:E1; [intros [= <- _ <-]; cbn; lia|].
+  destruct (i >=? n)%Z eqn:E2; [intros [= <- _ <-]; rewrite app_nil_r; lia|].
+  intros [= <- _ <-]. change (match l with [] => [] | _ :: l0 => skipn (Z.to_nat i) l0 end) with (skipn (S (Z.to_nat i)) l).
+  rewrite app_length, firstn_length, skipn_length.
+  apply Z.ltb_ge in E1. rewrite Z.geb_leb in E2. apply Z.leb_gt in E2. unfold n in E2. lia.
+Qed.
+
+(** THE THEOREM (with well-formedness of the result, so that the preservation theorems of
+    SyncProofs.v apply to every later call): a full positional assignment that returns
+    normally restores consistency from any well-formed state whose leaves differ at most
+    in parameter values.  any argument list with at least [m_param_count m] values will do. *)
+Lemma midline_positional_restores_gen m a : m_wf m = true -> m_shapes_agree m -> m_config_sim m ->
+  m_param_count m <= length a ->
+  snd (m_set_params m a []) <> None ->
+  m_wf (fst (m_set_params m a [])) = true /\ m_consistent (fst (m_set_params m a [])).
+Proof.
+  intros Hwf Hsh Hsim Hlen. unfold m_set_params.
+  destruct (m_get_params m true) as [ps|]; [|intros C; exfalso; apply C; reflexivity].
+  destruct (popat a (Z.of_nat (length ps) - 1)) as [[before last] after] eqn:Ep.
+  pose proof (popat_length _ _ _ _ _ Ep) as Hpl. cbn [kw_get].
+  set (r0 := match last with Some x => option_map (ml_with_midext m) (check_unit x) | None => Some m end).
+  assert (H0 : forall m0, r0 = Some m0 ->
+            m_wf m0 = true /\ m_shapes_agree m0 /\ m_config_sim m0 /\ m_param_count m0 = m_param_count m).
+  { intros m0 E0. unfold r0 in E0. destruct last as [x|].
+    - destruct (check_unit x) as [q|]; [|discriminate]. injection E0 as <-.
+      split; [exact Hwf|]. split; [exact Hsh|]. split; [exact Hsim | reflexivity].
+    - injection E0 as <-. split; [exact Hwf|]. split; [exact Hsh|]. split; [exact Hsim | reflexivity]. }
+  destruct r0 as [m0|]; [|intros C; exfalso; apply C; reflexivity].
+  destruct (H0 m0 eq_refl) as (Hwf0 & Hsh0 & Hsim0 & Hcnt0). intros Hret.
+  destruct (andthen_ok _ _ Hret) as (a1 & Ha1 & Heq). rewrite Heq in *.
+  assert (Hla : m_param_count m0 - 1 <= length (before ++ after)) by (rewrite Hcnt0; lia).
+  destruct (m_spread_pos m0 (before ++ after) Hwf0 Hsh0 Hsim0 Hla) as (r & Hr & Hwf1 & Hsh1 & Hsim1 & Hld);
+    [rewrite Ha1; discriminate|].
+  rewrite Hr in Ha1. injection Ha1 as <-.
+  set (m1 := fst (m_set_spread_params m0 (before ++ after) [])) in *.
+  destruct (m_dist_pos m1 r Hwf1 Hsim1 Hld Hret) as (ds0 & -> & Hwf2).
+  split; [exact Hwf2|]. split.
+  - apply m_map_shared; [reflexivity | reflexivity | exact Hsh1].
+  - intros u Hu. rewrite all_leaves_map in Hu. apply in_map_iff in Hu. destruct Hu as (u0 & <- & Hu0).
+    change (ext_i (m_map (fun u => u_with_dists u ds0) m1)) with (u_with_dists (ext_i m1) ds0).
+    destruct (Hsim1 u0 Hu0) as (Hm & Ht & _). unfold Sync.same_config. cbn [u_with_dists u_mods u_dists u_maxt].
+    repeat split; assumption.
+Qed.
+
+Theorem midline_full_assignment_restores : C11_midline_full_assignment_restores_stmt.
+Proof.
+  intros m v rest Hwf Hsh Hsim Hlen Hret.
+  apply (midline_positional_restores_gen m (vals v ++ rest) Hwf Hsh Hsim); [|exact Hret].
+  rewrite app_length. unfold vals. rewrite map_length. lia.
+Qed.
+
+Definition C11_midline_full_assignment_restores_wf_stmt : Prop :=
+  forall m v rest, m_wf m = true -> m_shapes_agree m -> m_config_sim m ->
+    length v = m_param_count m ->
+    snd (m_set_params m (vals v ++ rest) []) <> None ->
+    m_wf (fst (m_set_params m (vals v ++ rest) [])) = true /\ m_consistent (fst (m_set_params m (vals v ++ rest) [])).
+Theorem midline_full_assignment_restores_wf : C11_midline_full_assignment_restores_wf_stmt.
+Proof.
+  intros m v rest Hwf Hsh Hsim Hlen Hret.
+  apply (midline_positional_restores_gen m (vals v ++ rest) Hwf Hsh Hsim); [|exact Hret].
+  rewrite app_length. unfold vals. rewrite map_length. lia.
+Qed.
+
+
+(** * For objects that are well-formed in the sense of Safe.v (every constructed object and
+    every state reached from one by setter calls): no shape hypothesis is needed, the result
+    is again such an object, and get_params reports what the leaves hold; with symmetric LNL
+    spread (positional order = reported order) it reports exactly the assigned vector *)
+Lemma names_ok_shapes_agree m : m_names_ok m = true -> m_shapes_agree m.
+Proof.
+  intros Hok u Hu.
+  assert (Hall : In u (all_leaves m)).
+  { apply in_all_leaves. left. apply in_app_iff in Hu. destruct Hu as [Hu|Hu].
+    - apply in_ipsi_leaves in Hu. destruct Hu as (l & _ & E). exists l. exact E.
+    - apply in_contra_leaves in Hu. destruct Hu as (l & _ & E). exists l. exact E. }
+  destruct (all_leaves_bis m u Hall) as (b & Hb & Hs).
+  destruct (m_ok_bi m b Hok Hb) as (_ & (_ & Ti & Li & _) & (_ & Tc & Lc & _) & _).
+  unfold u_T, u_L, ext_i. fold (m_ei m). fold (TK m) (LK m). destruct Hs as [-> | ->]; split; assumption.
+Qed.
+
+Lemma m_items_count m : m_names_ok m = true -> length (m_items m) = m_param_count m.
+Proof.
+  intros Hok. rewrite m_param_count_eq.
+  destruct (m_ok_bi m _ Hok (m_ok_ext m Hok)) as (_ & _ & (_ & Tec & Lec & _) & _).
+  destruct (m_ok_bi m _ Hok (m_ok_noext m Hok)) as (_ & _ & (_ & Tnc & _) & _).
+  apply keys_length in Tec, Lec, Tnc.
+  unfold m_items, m_spread_items, u_T, u_L, ext_i. fold (m_ei m). unfold m_ei in *.
+  destruct (ml_mixing m), (ml_symL m); unfold pre; rewrite ?app_length, ?map_length, ?app_length; cbn [length]; rewrite ?Tec, ?Lec, ?Tnc; unfold path; lia.
+Qed.
+
+Lemma combine_fst_snd {A B} (l : list (A * B)) : combine (map fst l) (map snd l) = l.
+Proof. induction l as [|[a b] l IH]; [reflexivity|]. cbn [map combine fst snd]. rewrite IH. reflexivity. Qed.
+
+Definition C11_midline_full_assignment_restores_pos_sim_stmt : Prop :=
+  forall m v rest, m_names_ok m = true -> m_config_sim m -> length v = length (m_items m) ->
+    snd (m_set_params m (vals v ++ rest) []) <> None ->
+    let m' := fst (m_set_params m (vals v ++ rest) []) in
+    m_names_ok m' = true /\ m_wf m' = true /\ m_consistent m' /\
+    (* every reported parameter is the value of every leaf the sharing declares *)
+    (exists L, m_got m' = Some L /\ map fst L = m_names m /\ forall k q, In (k, q) L -> m_reported_ok m' k q) /\
+    (* positional order = reported order: exactly the assigned values are reported *)
+    (ml_symL m = true -> param_items (MMid m') = Some (combine (m_names m) v)).
+
+Lemma c11_mid_items_eq m : c11_mid_items m = mid_items m.
+Proof. unfold c11_mid_items, mid_items, m_mixing_item, m_midext_item. destruct (ml_mixing m), (ml_symL m); reflexivity. Qed.
+
+Theorem midline_full_assignment_restores_pos_sim : C11_midline_full_assignment_restores_pos_sim_stmt.
+Proof.
+  intros m v rest Hok Hsim Hlen Hret m'.
+  pose proof (names_ok_wf m Hok) as Hwf. pose proof (names_ok_shapes_agree m Hok) as Hsh.
+  assert (Hlen' : length v = m_param_count m) by (rewrite Hlen; apply m_items_count, Hok).
+  destruct (midline_full_assignment_restores_wf m v rest Hwf Hsh Hsim Hlen' Hret) as [Hwf' Hc']. fold m' in Hwf', Hc'.
+  assert (Hsk : sk_mid m' = sk_mid m) by apply sk_mid_set_params.
+  assert (Hlm : length v = length (mid_items m)) by (rewrite <- safe_items_mid; exact Hlen).
+  pose proof (fun HsL => mid_set_get_positional m v rest (safe_set_ok_mid m Hok) HsL Hlm Hret) as Hpos.
+  cbv zeta in Hpos. fold m' in Hpos. clearbody m'.
+  pose proof (m_names_ok_sk m' m Hsk Hok) as Hok'.
+  pose proof (m_names_sk m' m Hok Hsk) as Hn.
+  pose proof (m_got_spec m' (safe_names_ok_mid m' Hok')) as Hgot.
+  assert (Hnames : map fst (mid_items m') = m_names m).
+  { rewrite <- Hn. unfold m_names. rewrite safe_items_mid. reflexivity. }
+  split; [exact Hok'|]. split; [exact Hwf'|]. split; [exact Hc'|]. split.
+  - exists (mid_items m'). split; [exact Hgot|]. split; [exact Hnames|].
+    rewrite <- c11_mid_items_eq. apply (midline_reported_params_are_used m' Hwf' Hc'). rewrite c11_mid_items_eq. exact Hgot.
+  - intros HsL. destruct (Hpos HsL) as [Hv Hk].
+    change (param_items (MMid m')) with (m_got m'). rewrite Hgot in *. cbn [option_map] in Hv, Hk.
+    injection Hv as Hv. f_equal. rewrite <- (combine_fst_snd (mid_items m')), Hv, Hnames. reflexivity.
+Qed.
+
+Print Assumptions midline_full_assignment_restores.
+Print Assumptions midline_full_assignment_restores_wf.
+Print Assumptions midline_full_assignment_restores_pos_sim.
